@@ -224,7 +224,7 @@ class Runner:
         exc = None
         out = None
         try:
-            out = real_cls.deserialize(reader)
+            out = real_cls.deserialize(reader=reader) if self.n_deliveries % 7 == 0 else real_cls.deserialize(reader)
         except StepCap:
             exc = "StepCap"
         except Exception as e:  # noqa
